@@ -304,6 +304,8 @@ C["C09"]={"jobs":c09,"assumptions":COAL_ASSUME+["any non-empty Warnings excuses 
   "outside":["groups with more than 4-5 records","the regex tokenizer (C05/C12)","ECS fields"]}
 c15=[job("repeatable","aucoalesce","VH_Repeatable",["C15/"],{},Q,bounds="four concrete groups (execve with PATH/CWD/EXECVE, failed connect with SOCKADDR/PROCTITLE, USER_LOGIN, AVC+SYSCALL) through the real Parse: Data/Tags snapshots before and after, second coalesce equal, earlier event unchanged by a later coalesce")]
 c15.append(job("table-isolation","aucoalesce","VH_TableIsolation",["C15/"],{},Q,bounds="for every record type of the normalisation table: {that record, SYSCALL} in both orders x 4 syscall pairs (open/creat/connect/execve/setuid): first event unchanged by the second coalesce, same text coalesces to the same event again, no store into any list of the shared tables (frozen up to capacity)"))
+c15.append(job("resolve-isolation-hardcoded","aucoalesce","VH_ResolveIsolation",["C15/"],{"mode":0},Q,bounds="uid and gid with the same numbers and different names hard-coded through HardcodeUsers/HardcodeGroups in either order, then ResolveIDs: every *uid gets the user name, every *gid the group name"))
+c15.append(job("resolve-isolation-caches","aucoalesce","VH_ResolveIsolation",["C15/"],{"mode":1},Q,no_native=True,bounds="explicit user/group caches against a stub database where uid 1000/33 and gid 1000/33 have different names; 4 lookup histories (incl. lookups in an unrelated pair of caches) before ResolveIDsFromCaches"))
 c15.append(job("concurrent-2",  "aucoalesce","VH_ConcurrentResolve",["C15/"],{"threads":2,"preemptions":2},Q,no_native=True,bounds="2 goroutines, each coalescing its own (different) group and resolving IDs against shared user/group caches; every interleaving at synchronisation operations with at most 2 preemptions; race detection (heap cells and maps) by vector clocks; results equal the sequential ones"))
 c15.append(job("concurrent-3",  "aucoalesce","VH_ConcurrentResolve",["C15/"],{"threads":3,"preemptions":2},T,no_native=True,bounds="3 goroutines, at most 2 preemptions"))
 C["C15"]={"jobs":c15,"assumptions":COAL_ASSUME,"outside":["arbitrary message text (C05 covers the parser's totality)","ResolveIDs against real user databases"]}
